@@ -192,6 +192,9 @@ impl LinuxProcessMemory {
 impl FragmentedMemory for LinuxProcessMemory {
     fn reset(&mut self) {
         let _r = self.maps_file.rewind();
+        // Forget the region being walked, otherwise the next listing would resume
+        // with the next chunk of this region instead of the first mapping.
+        self.current_region = None;
     }
 
     fn next(&mut self, params: &MemoryParams) -> Option<RegionDescription> {
